@@ -19,6 +19,16 @@ pub struct LineCase {
 const VERBS: &[&str] = &[
     "PRIVMSG", "NOTICE", "TOPIC", "PART", "KICK", "NICK", "INVITE", "WALLOPS", "AWAY", "JOIN",
     "PASS", "USER", "PING", "PONG", "OPER", "KILL", "MODE", "WHO", "QUIT", "FOO",
+    // not commands: letters whose Unicode (not ASCII) case mapping lands on a command name
+    "\u{131}SON", "PA\u{df}", "QU\u{131}T", "JO\u{131}N", "\u{17f}TATS", "PR\u{131}VMSG", "N\u{131}CK", "L\u{131}\u{17f}T",
+];
+
+// every verb the server implements (the statement: command names are ASCII, letter case ignored)
+const KNOWN_VERBS: &[&str] = &[
+    "CAP", "AUTHENTICATE", "PASS", "NICK", "USER", "PING", "PONG", "OPER", "QUIT", "JOIN", "PART", "TOPIC", "NAMES",
+    "LIST", "INVITE", "KICK", "MOTD", "VERSION", "ADMIN", "CONNECT", "LUSERS", "TIME", "STATS", "LINKS", "HELP",
+    "INFO", "MODE", "PRIVMSG", "NOTICE", "WHO", "WHOIS", "WHOWAS", "KILL", "REHASH", "RESTART", "SQUIT", "AWAY",
+    "USERHOST", "WALLOPS", "ISON", "DIE",
 ];
 
 const MIDDLES: &[&str] = &[
@@ -254,6 +264,13 @@ pub fn check_line(c: &LineCase, st: &mut Stats) -> Result<(), Viol> {
                     "C13.tokenizer",
                     format!("tokenizer-mismatch:{}", shape),
                     format!("line {:?}: server parsed {} but the grammar gives {}", line, md, exp),
+                ));
+            }
+            if cd.is_some() && !KNOWN_VERBS.contains(&m.command.to_ascii_uppercase().as_str()) {
+                return Err(Viol::new(
+                    "C13.command_mapping",
+                    "command-mapping:unknown-verb-accepted",
+                    format!("line {:?}: {:?} is not a command but the server maps it to {}", line, m.command, cd.clone().unwrap_or_default()),
                 ));
             }
             if let (Some(cd), Some(ecd)) = (cd, expected_command_debug(m)) {
